@@ -802,7 +802,16 @@ func lineBoxLayout(context *layoutContext, box_ Box, index int, child_ *bo.LineB
 								index, skipStack, resumeAt, absoluteBoxes, fixedBoxes)
 							breakLinebox = true
 						} else if footnote.Box().Style.GetFootnotePolicy() == "block" {
-							abort, breakLinebox = true, true
+							if pageIsEmpty {
+								// The block cannot be pushed to the next page (the page
+								// holds nothing else): break before this line instead.
+								abort, stop, resumeAt = breakLine(
+									context, box, line_, &newChildren, linesIterator, pageIsEmpty,
+									index, skipStack, resumeAt, absoluteBoxes, fixedBoxes)
+								breakLinebox = true
+							} else {
+								abort, breakLinebox = true, true
+							}
 						}
 						break
 					}
